@@ -42,6 +42,9 @@ def cases(tier):
             out.append(spec)
     from .c02 import extra_cases
     out += [c for c in extra_cases(tier)]
+    # cells that overlap their neighbours: in the overlap the lowest index must win
+    out.append({'family': 'cf1d', 'ny': 3, 'nx': 4, 'bounds': 'overlap'})
+    out.append({'family': 'cf1d', 'ny': 4, 'nx': 3, 'bounds': 'overlap', 'lat_kind': 'desc', 'lon_kind': 'desc'})
     # large grids: the spatial index only returns its hits out of order on grids well above its node
     # capacity (observed: never on 3x4, on about 40 % of the shared vertices of a 10x20 grid)
     out.append({'family': 'cf1d', 'ny': 10, 'nx': 20, 'bounds': 'var', 'nt': 1, 'nk': 1})
@@ -84,6 +87,13 @@ def query_points(truth, polys) -> list[tuple[float, float]]:
     x0, x1, y0, y1 = min(xs), max(xs), min(ys), max(ys)
     for far in ((x0 - 100, y0), (x1 + 100, y1 + 100), (x0, y1 + 50), (1e6, -1e6)):
         add(*far)
+    # a whole number of turns away from a cell interior / vertex: still outside the model
+    rp = valid[0].representative_point()
+    vx, vy = valid[-1].exterior.coords[0]
+    for turn in (-720.0, -360.0, 360.0, 720.0):
+        add(rp.x + turn, rp.y)
+        add(vx + turn, vy)
+        add(rp.x, rp.y + turn / 2)
     shape = truth.kinds['face']['shape']
     ny_cells, nx_cells = (shape[0], shape[1]) if len(shape) == 2 else (3, 3)
     for a in range(4 * ny_cells + 1):
